@@ -29,6 +29,7 @@ POINTS = {
     "p2": dict(s=2, m="m0", tags={"b": ""}, fields={}),
     "p3": dict(s=3, m="_default", tags={"a": "x", "b": "x"}, fields={"p": -1}),
     "pe": dict(s=0, m="m1", tags={"a": None}, fields={"p": 1, "q": 0}),  # earlier than most: out of order
+    "pn": dict(s=4, m="m0", tags={"a": "l1\nl2", "b": "q,\"r"}, fields={"p": 3}),  # line break, delimiter and quote inside values
 }
 
 
@@ -439,7 +440,7 @@ QUERIES = ["Ta==x", "Ta!=x", "Tb<y", "Tb.exists", "Ta.search", "Fp>0", "Fp==1", 
            ["~", ["&", "Ta==x", "t<=1"]], ["&", "T.noop", "Fp>0"]]
 
 OPS = (
-    [["ins", n] for n in ("p0", "p1", "p1b", "p2", "p3", "pe")]
+    [["ins", n] for n in ("p0", "p1", "p1b", "p2", "p3", "pe", "pn")]
     + [["insm", ["p2", "p3"]], ["insm", ["p0", "BAD", "p1"]], ["insm", ["p1", "p0"], "m0"]]
     + [["rm", "Ta==x", None], ["rm", ["~", "Fp==1"], None], ["rm", "t<=1", None], ["rm", ["&", "Ta==x", "Fp>0"], "m0"], ["rm", "Fq.exists", "m0", "handle"], ["rm", "M.test", None]]
     + [["drop", "m0"], ["drop", "m1", "handle"], ["rmall"]]
